@@ -110,6 +110,104 @@ def _pit_probe_scenarios(archs: List[Dict[str, Any]], rng: random.Random, seed: 
     return scs
 
 
+def _dep_archs() -> List[Dict[str, Any]]:
+    """Two-layer producer -> consumer networks: (producer type, consumer type, architecture)."""
+    out = []
+    for dim in (1, 2):
+        def conv(p, out_, k):
+            return {"op": "conv", "ins": [p], "out": out_, "k": k, "causal": dim == 1}
+
+        def dw(p):
+            return {"op": "conv", "ins": [p], "dw": True, "k": 3, "causal": dim == 1}
+        cname = f"conv{dim}d"
+        base = {"dim": dim, "c0": 2, "sp": 4 if dim == 1 else 2}
+        out += [
+            (cname, cname, dict(base, nodes=[conv(0, 3, 3), conv(1, 2, 3 if dim == 2 else 2)])),
+            (cname, "linear(flatten)", dict(base, nodes=[conv(0, 3, 3), {"op": "flat", "ins": [1]}, {"op": "lin", "ins": [2], "out": 2}])),
+            (cname + "+dw", cname, dict(base, nodes=[conv(0, 3, 3), dw(1), conv(2, 2, 1)])),
+            (cname + "+dw", "linear(flatten)", dict(base, nodes=[conv(0, 3, 3), dw(1), {"op": "flat", "ins": [2]}, {"op": "lin", "ins": [3], "out": 2}])),
+            ("linear", "linear", dict(base, nodes=[{"op": "flat", "ins": [0]}, {"op": "lin", "ins": [1], "out": 5}, {"op": "relu", "ins": [2]},
+                                                    {"op": "lin", "ins": [3], "out": 2}])),
+        ]
+    return [(p, c, norm_arch(a)) for p, c, a in out]
+
+
+def _dep_probe_scenarios(seed: int) -> List[Dict[str, Any]]:
+    scs = []
+    for j, (pt, ct, a) in enumerate(_dep_archs()):
+        for m in costdeps.PIT_METRICS:
+            for disc in (False, True):
+                scs.append({"kind": "probe", "method": "pit", "arch": a, "metric": m, "disc": disc, "single": (j + len(m)) % 3 == 0,
+                            "flags": {"features": True, "rf": True, "dilation": True}, "seed": seed * 1000 + 500 + j, "src": "dep",
+                            "dep": True, "ptype": pt, "ctype": ct, "n_pairs": 1})
+    return scs
+
+
+def _hist_scenarios(R: Run, quick: bool, seed: int, rng: random.Random) -> List[Dict[str, Any]]:
+    """The call histories TLC enumerated (CostDepsHistMC).  A history is replayed with a cost read after EVERY call, so a history
+    covers its prefixes.  thorough: every history of full length (4); quick: every history of length 2 (hence every history of
+    length <= 2) and a seeded third of the histories of length 3."""
+    scs = []
+    n = 3 if quick else 4
+    for method, variants in (("pit", [""]), ("mps", ["layer", "channel"]), ("sn", [""])):
+        states = pitgen.dump_states("CostDepsHistMC", f"CostDepsHistMC_{method}_{'quick' if quick else 'thorough'}", R, workers=3, timeout=3600)
+        full = sorted([list(a) for a in st["hist"]] for st in states if len(st["hist"]) == n)
+        if not full:
+            raise tlc.MachineryError("no history of full length in the dump of CostDepsHistMC " + method)
+        for v in variants:
+            hs = list(full)
+            if quick:
+                hs = sorted([list(a) for a in st["hist"]] for st in states if len(st["hist"]) == 2) + rng.sample(full, max(1, len(full) // 3))
+            scs += [{"kind": "hist", "method": method, "variant": v, "hist": h, "seed": seed, "src": "hist-" + method} for h in hs]
+    R.extra["histories_enumerated_by_tlc"] = R.extra.get("histories_enumerated_by_tlc", 0)
+    return scs
+
+
+_DLOCK = None
+
+
+def _concurrent_design(R: Run) -> None:
+    """Make R.design safe to call from several threads (TLC runs outside the lock, the bookkeeping of Run.design inside)."""
+    import threading
+    lock = threading.Lock()
+
+    def design(module, cfg, *, expect_ok=True, require_cov=(), **kw):
+        res = tlc.run_tlc(module, cfg, **kw)
+        with lock:
+            R.states += res.distinct
+            R.transitions += res.generated
+            R.design_runs.append({"module": module, "cfg": cfg, "distinct": res.distinct, "generated": res.generated,
+                                  "depth": res.depth, "wall_s": round(res.wall_s, 2), "ok": res.ok})
+        if expect_ok and not res.ok:
+            v = res.violations[0]
+            raise tlc.MachineryError(f"design config {module}/{cfg} violates {v['name']}: {json.dumps(v['state'], default=str)[:800]}")
+        if not expect_ok and res.ok:
+            raise tlc.MachineryError(f"design config {module}/{cfg} was expected to exhibit a violation (sanity) but passed")
+        for act in require_cov:
+            c = res.coverage.get(act)
+            if c is None or c[0] == 0:
+                raise tlc.MachineryError(f"vacuity guard: action {act} never taken in {module}/{cfg}")
+        return res
+    R.design = design  # type: ignore[method-assign]
+
+
+def _validate_concurrently(R: Run, groups, nontrivial) -> List[str]:
+    """groups: [(label, traces, scenarios)].  The TLC runs go in parallel; Run.validate then classifies group by group."""
+    from concurrent.futures import ThreadPoolExecutor
+    with ThreadPoolExecutor(max_workers=len(groups)) as ex:
+        futs = [ex.submit(tlc.validate_traces, "CostDepsTrace", "CostDepsTrace", tr, chunk=1200, workers=5) for _, tr, _ in groups]
+        pre = [f.result() for f in futs]
+    verdicts: List[str] = []
+    orig = tlc.validate_traces
+    try:
+        for (label, tr, sc), res in zip(groups, pre):
+            tlc.validate_traces = lambda *a, _r=res, **k: _r          # Run.validate receives the result computed above
+            verdicts += R.validate("CostDepsTrace", "CostDepsTrace", tr, sc, nontrivial=nontrivial, key=_key, label=label)
+    finally:
+        tlc.validate_traces = orig
+    return verdicts
+
+
 def _sn_probe_scenarios(rng: random.Random, n: int, seed: int) -> List[Dict[str, Any]]:
     from .. import sn_gen
     scs = []
@@ -172,13 +270,13 @@ def _odimo_probe_scenarios(mps_archs: List[Dict[str, Any]], n: int, seed: int) -
 # ------------------------------------------------------------------------------------------ bookkeeping
 def _key(sc):
     return {k: sc.get(k) for k in ("kind", "method", "arch", "net", "A", "metric", "disc", "single", "flags", "w", "wp", "ap", "full",
-                                   "default_cost", "seed")}
+                                   "default_cost", "seed", "hist", "variant", "dep")}
 
 
 def _self_test(traces: List[Dict[str, Any]], verdicts: List[str]) -> int:
     """Corrupted copies of ACCEPTED traces must be rejected with the right clause (the comparison really is TLC's)."""
     muts, want = [], []
-    n_disc = n_latg = 0
+    n_disc = n_latg = n_hist = n_dep = 0
     for t, v in zip(traces, verdicts):
         if v != "ok":
             continue
@@ -209,6 +307,20 @@ def _self_test(traces: List[Dict[str, Any]], verdicts: List[str]) -> int:
                 m["E"][cand[-1]]["cu"] = -1           # so that only the lattice clause can object
                 muts.append(m), want.append("C12.gradient")
                 n_disc += 1
+        if t["kind"] == "hist" and n_hist < 12 and len(t["ev"]) >= 3 and t["ev"][-1]["a"] not in ("set", "fwd", "mode") and t["ev"][-1]["reads"]:
+            m = copy.deepcopy(t)                     # an observer call moves the cost
+            m["ev"][-1]["reads"][0]["c"] += 70000
+            muts.append(m), want.append("C12.history")
+            n_hist += 1
+        if t["kind"] == "probe" and t.get("dep") and t["ev"]["ok"] and n_dep < 12 and t["metric"] in ("params", "ops"):
+            cand = [i for i, e in enumerate(t["E"]) if e["k"] == "a" and e["tr"] and e["nz"] and not e["ka"]]
+            if cand:
+                m = copy.deepcopy(t)
+                m["E"][cand[0]]["nz"] = False
+                m["E"][cand[0]]["cu"] = -1
+                m["disc"] = False                    # leave only the dependency clause to object
+                muts.append(m), want.append("C12.dependency")
+                n_dep += 1
         if t["kind"] == "lat" and n_latg < 12:
             cand = [(i, j) for i, o in enumerate(t["obs"]) if o["d"] and o["ok"] for j, e in enumerate(t["els"])
                     if e["tr"] and e["v"] != 0 and o["nz"][j] and o["m"] != "gap8_latency"]
@@ -218,7 +330,7 @@ def _self_test(traces: List[Dict[str, Any]], verdicts: List[str]) -> int:
                 m["obs"][i]["nz"][j] = False
                 muts.append(m), want.append("C12.gradient")
                 n_latg += 1
-        if t["kind"] == "lat" and t["succ"] and len(muts) < 124:
+        if t["kind"] == "lat" and t["succ"] and len(muts) < 148:
             j = len(t["obs"]) - 1
             if t["succ"][0]["obs"][0]["c"] > t["obs"][0]["c"] + 100:
                 m = copy.deepcopy(t)
@@ -245,7 +357,10 @@ def run(tier: str, seed: int, replay=None) -> int:
     R.rule = ("scenario = (model, metric, mode, parameter values). 'lat': every state of the mask lattice of CostDepsMC's architecture "
               "family (TLC dump) written into a real PIT model, with all its Raise successors; 'probe': the observation protocol on one "
               "real PIT (family + seeded random grammar architectures in FeatGraph!Supported) / SuperNet / MPS / ODiMO_MPS model and one "
-              "built-in metric. Non-trivial = a lattice state with at least one successor, or a probe with at least one measured raise.")
+              "built-in metric ('dep': two-layer producer -> consumer networks, the dependency matrix); 'hist': every call history of "
+              "CostDepsHistMC (switches, modes, forward, export, summary, parameter change; <= 3 calls quick, 4 thorough) replayed on a real "
+              "PIT (Conv1d with non-trivial beta / gamma), MPS (per layer, per channel) and SuperNet model with a cost read after every call. "
+              "Non-trivial = a lattice state with at least one successor, a probe, or a history with at least one observer call.")
     R.assumptions = [
         "PIT networks come from the grammar of specs/FeatGraph.tla restricted by TLC to Supported() architectures; fold_bn off",
         "costs are evaluated by plinio in float32: equal / ordered up to the tolerances stated in specs/CostDepsTrace.tla",
@@ -255,6 +370,10 @@ def run(tier: str, seed: int, replay=None) -> int:
         "elements, MaskAlgebra!Kept), and the gradient must be non-zero at every observed parameter value",
         "SuperNet / MPS use the default deterministic sampler (soft-max, no Gumbel noise, soft selection), training mode; the cost is read after a forward pass",
         "'increase raises the metric' is observed with one finite increase (|mask| + 0.6, alpha + 1.5) and a margin of 5000 units",
+        "history: PIT cost = F(parameter values, discrete_cost); MPS / SuperNet cost = G(coefficients sampled by the last forward pass) - "
+        "export(), summary(), requires_grad switches and train()/eval() by themselves are observers; after a parameter change without a forward "
+        "pass nothing is required; a call that raises ends the history (counted, not judged)",
+        "gap8_latency on 1-D networks: Conv1d layers cost 0 (no registered model), Linear layers are charged",
         "ne16_latency: architectures with kernels outside {1x1, 3x3} / non-3x3 depthwise are documented restrictions (skipped, counted)",
         "MPS / ODiMO networks: 2-D grammar architectures without concatenation and without weight sharing (MPS conversion of concat "
         "topologies is not deterministic on the pinned tree); models whose construction raises are skipped and counted",
@@ -266,21 +385,44 @@ def run(tier: str, seed: int, replay=None) -> int:
         return R.finish()
 
     # ------------------------------------------------------------------ 1. design level
-    cfg = "CostDepsMC_quick" if quick else "CostDepsMC_thorough"
-    states = [(s, VALS[tier]) for s in pitgen.dump_states("CostDepsMC", cfg, R, workers=12, timeout=5400)]
-    if not quick:       # the wide 1-D chain (6 free elements) over its own value set
-        states += [(s, [0, 6, 10, 15]) for s in pitgen.dump_states("CostDepsMC", "CostDepsMC_thorough_chain", R, workers=12, timeout=5400)]
-    # (a) weights / inputs are in the state but not in the cost: vacuity guard = both actions really fired
-    deps = pitgen.dump_states("CostDepsMC", "CostDepsMC_deps", R, workers=8)
-    if not (any(s["wv"] == 1 for s in deps) and any(s["xv"] == 1 for s in deps) and len({json.dumps(s["A"], sort_keys=True, default=str) for s in deps}) > 1):
-        raise tlc.MachineryError("vacuity guard: Perturb / NewInput / Raise not all taken in CostDepsMC_deps")
-    R.design("CostDepsMC", "CostDepsMC_mix_quick" if quick else "CostDepsMC_mix_thorough", workers=8)
-    R.design("CostDepsMC", "CostDepsMC_bad", expect_ok=False, workers=4)      # sanity: keep-alive elements are not strict
-    # straight-through gradient of the discrete cost against MaskAlgebra: every Conv1d time mask K <= 9
-    R.design("CostDepsMC", "CostDepsMC_time_quick" if quick else "CostDepsMC_time_thorough", workers=12, timeout=5400)
-    R.design("CostDepsMC", "CostDepsMC_time_half", workers=4)                 # a constant factor in the backward pass: same support
-    for bad in ("CostDepsMC_time_clipped", "CostDepsMC_time_zeroabove", "CostDepsMC_lat_clipped"):
-        R.design("CostDepsMC", bad, expect_ok=False, workers=4)               # sanity: these backward rules lose gradients
+    # the design configurations are independent TLC runs: several at a time (same bookkeeping as Run.design, under a lock)
+    _concurrent_design(R)
+    out: Dict[str, Any] = {}
+
+    def j_lattice():
+        cfg = "CostDepsMC_quick" if quick else "CostDepsMC_thorough"
+        st = [(s, VALS[tier]) for s in pitgen.dump_states("CostDepsMC", cfg, R, workers=8, timeout=5400)]
+        if not quick:       # the wide 1-D chain (6 free elements) over its own value set
+            st += [(s, [0, 6, 10, 15]) for s in pitgen.dump_states("CostDepsMC", "CostDepsMC_thorough_chain", R, workers=8, timeout=5400)]
+        out["states"] = st
+
+    def j_deps():
+        # (a) weights / inputs are in the state but not in the cost: vacuity guard = both actions really fired
+        deps = pitgen.dump_states("CostDepsMC", "CostDepsMC_deps", R, workers=4)
+        if not (any(s["wv"] == 1 for s in deps) and any(s["xv"] == 1 for s in deps)
+                and len({json.dumps(s["A"], sort_keys=True, default=str) for s in deps}) > 1):
+            raise tlc.MachineryError("vacuity guard: Perturb / NewInput / Raise not all taken in CostDepsMC_deps")
+        R.design("CostDepsMC", "CostDepsMC_mix_quick" if quick else "CostDepsMC_mix_thorough", workers=4)
+        R.design("CostDepsMC", "CostDepsMC_bad", expect_ok=False, workers=2)      # sanity: keep-alive elements are not strict
+
+    def j_time():
+        # straight-through gradient of the discrete cost against MaskAlgebra: every Conv1d time mask K <= 9
+        R.design("CostDepsMC", "CostDepsMC_time_quick" if quick else "CostDepsMC_time_thorough", workers=6, timeout=5400)
+        R.design("CostDepsMC", "CostDepsMC_time_half", workers=2)                 # a constant factor in the backward pass: same support
+        for bad in ("CostDepsMC_time_clipped", "CostDepsMC_time_zeroabove", "CostDepsMC_lat_clipped"):
+            R.design("CostDepsMC", bad, expect_ok=False, workers=2)               # sanity: these backward rules lose gradients
+
+    def j_hist():
+        # history dimension: every call history of bounded length; sanity variants must fail
+        out["hist"] = _hist_scenarios(R, quick, seed, rng_h)
+        R.design("CostDepsHistMC", "CostDepsHistMC_inplace", expect_ok=False, workers=2)        # eval sample written in place
+        R.design("CostDepsHistMC", "CostDepsHistMC_dropsfrozen", expect_ok=False, workers=2)    # frozen dilation mask dropped
+    rng_h = random.Random(seed * 7 + 3)
+    from concurrent.futures import ThreadPoolExecutor
+    with ThreadPoolExecutor(max_workers=4) as ex:
+        for f in [ex.submit(j) for j in (j_lattice, j_time, j_deps, j_hist)]:
+            f.result()
+    states, hist_scs = out["states"], out["hist"]
 
     # ------------------------------------------------------------------ 2. scenarios
     scs = []
@@ -289,16 +431,18 @@ def run(tier: str, seed: int, replay=None) -> int:
     scs.sort(key=lambda s: json.dumps(s["arch"], sort_keys=True))         # consecutive states share the real model
     n_lat = len(scs)
     mult = 1 if quick else 6
-    n_pit, n_mps = 22 * mult, 14 * mult
+    n_pit, n_mps = 16 * mult, 12 * mult
     c_pit, c_mps = _pit_candidates(rng, n_pit), _mps_candidates(rng, n_mps + 3 * mult)
     ok_archs = _filter_archs(R, c_pit + c_mps)                          # ONE domain pre-pass by TLC
     ok_keys = {json.dumps(a, sort_keys=True) for a in ok_archs}
     a_pit = [a for a in c_pit if json.dumps(a, sort_keys=True) in ok_keys][:n_pit]
     a_mps = [a for a in c_mps if json.dumps(a, sort_keys=True) in ok_keys]
     scs += _pit_probe_scenarios(a_pit, rng, seed)
-    scs += _sn_probe_scenarios(rng, 8 * mult, seed)
+    scs += _sn_probe_scenarios(rng, 6 * mult, seed)
     scs += _mps_probe_scenarios(a_mps[:n_mps], rng, seed)
     scs += _odimo_probe_scenarios(a_mps[n_mps:], 3 * mult, seed)
+    scs += _dep_probe_scenarios(seed)
+    scs += hist_scs
     t0 = time.time()
     traces = costdeps.run_all(scs, procs=10)
     R.extra["exec_wall_s"] = round(time.time() - t0, 1)
@@ -317,14 +461,29 @@ def run(tier: str, seed: int, replay=None) -> int:
     for s in scs2:
         by_src[s["src"]] = by_src.get(s["src"], 0) + 1
     R.extra["scenarios_by_source"] = by_src
-    for src in ("pit", "sn", "mps"):
+    for src in ("pit", "sn", "mps", "dep"):
         if not any(s["src"] == src and t["kind"] == "probe" and t["ev"]["ok"] for s, t in keep):
             raise tlc.MachineryError(f"no evaluable {src} probe was produced")
+    # the recorded dependency matrix (TLC decides which entries must be TRUE; here: what was observed)
+    dm = []
+    for s, t in keep:
+        if s["src"] == "dep" and t["ev"]["ok"]:
+            dm.append({"producer": s["ptype"], "consumer": s["ctype"], "metric": s["metric"], "discrete": s["disc"],
+                       "producer_mask_gradients_nonzero": [e["nz"] for e in t["E"] if e["k"] == "a" and not e["ka"]]})
+    R.extra["dependency_matrix_observed"] = dm
+    R.extra["history_calls_raised"] = sum(1 for _, t in keep if t["kind"] == "hist" and not all(e["ok"] for e in t["ev"]))
 
     def nontrivial(sc):
+        if sc["kind"] == "hist":
+            return any(a[0] not in ("set", "fwd", "mode") for a in sc["hist"])
         return bool(sc.get("succ")) if sc["kind"] == "lat" else True
-    verdicts = R.validate("CostDepsTrace", "CostDepsTrace", tr2, scs2, nontrivial=nontrivial, key=_key, label="lattice + probes",
-                          chunk=1500)
+    groups = []
+    for label, kind in (("lattice states", "lat"), ("probes", "probe"), ("histories", "hist")):
+        idx = [i for i, t in enumerate(tr2) if t["kind"] == kind]
+        groups.append((label, [tr2[i] for i in idx], [scs2[i] for i in idx]))
+    order = [i for kind in ("lat", "probe", "hist") for i, t in enumerate(tr2) if t["kind"] == kind]
+    tr2, scs2 = [tr2[i] for i in order], [scs2[i] for i in order]
+    verdicts = _validate_concurrently(R, [g for g in groups if g[1]], nontrivial)
     for v in verdicts:
         if v.startswith("trace:"):
             raise tlc.MachineryError("malformed trace: " + v)
@@ -333,8 +492,12 @@ def run(tier: str, seed: int, replay=None) -> int:
     R.extra["gradient_elements_observed"] = sum(len(t["E"]) for t in tr2 if t["kind"] == "probe")
     R.extra["single_element_raises_measured"] = sum(1 for t in tr2 if t["kind"] == "probe" for e in t["E"] if e["cu"] >= 0)
     R.extra["ordered_pairs"] = sum(len(t["pairs"]) for t in tr2 if t["kind"] == "probe") + sum(len(t["succ"]) * len(t["obs"]) for t in tr2 if t["kind"] == "lat")
+    R.extra["histories_replayed"] = sum(1 for t in tr2 if t["kind"] == "hist")
+    R.extra["cost_reads_in_histories"] = sum(len(e["reads"]) for t in tr2 if t["kind"] == "hist" for e in t["ev"])
     for s, t in list(zip(scs2, tr2))[:: max(1, len(scs2) // 4)][:4]:
-        if t["kind"] == "lat":
+        if t["kind"] == "hist":
+            R.sample({"scenario": {k: s.get(k) for k in ("method", "variant", "hist")}, "observed": [(e["a"], e["b"], [r["c"] for r in e["reads"]]) for e in t["ev"]]})
+        elif t["kind"] == "lat":
             R.sample({"scenario": {"arch": s["arch"], "A": s["A"], "succ": s["succ"][:2]}, "observed": {"obs": t["obs"][:4], "orig": t["orig"][:2]}})
         else:
             R.sample({"scenario": {k: s.get(k) for k in ("method", "metric", "disc", "single", "w", "wp", "ap", "seed")},
